@@ -110,7 +110,12 @@ func valuesOfTy(r *rng, ty string, n int) []interface{} {
 	return out
 }
 
-func emitTyped(cw *caseWriter, f, ty string, v interface{}) {
+func emitTyped(cw *caseWriter, f, ty string, v interface{}) { emitTypedWith(cw, f, ty, v, "") }
+
+// emitTypedWith: batchBack, when not empty, replaces the Exporter -> Importer result by the one obtained
+// when all the values of the pairing went through ONE exporter and ONE importer, every row being held
+// until the last line was read.
+func emitTypedWith(cw *caseWriter, f, ty string, v interface{}, batchBack string) {
 	t := jsonline.NewTemplate().With("c", formatByName[f], tySample[ty])
 	ext := map[string]string{}
 	extForValue(v, ext)
@@ -152,6 +157,9 @@ func emitTyped(cw *caseWriter, f, ty string, v interface{}) {
 	})
 	if pan != "" {
 		written = "panic " + strings.ReplaceAll(pan, "\t", " ")
+	}
+	if batchBack != "" && strings.HasPrefix(back2, "ok") {
+		back2 = batchBack
 	}
 	cw.count("pair:" + f + "(" + ty + ")")
 	s := dynStr(v)
@@ -251,8 +259,38 @@ func genC13(cw *caseWriter, seed uint64, tier string) {
 					continue
 				}
 			}
-			for _, v := range valuesOfTy(r, vt, n) {
+			vals := valuesOfTy(r, vt, n)
+			for _, v := range vals {
 				emitTyped(cw, f, ty, v)
+			}
+			// the same values through one exporter and one importer, the rows held until the end
+			t := jsonline.NewTemplate().With("c", formatByName[f], tySample[ty])
+			var buf bytes.Buffer
+			exp := t.GetExporter(&buf)
+			var written []int
+			for i, v := range vals {
+				before := buf.Len()
+				if err := exp.Export(map[string]interface{}{"c": v}); err == nil && buf.Len() > before {
+					written = append(written, i)
+				} else {
+					buf.Truncate(before)
+				}
+			}
+			imp := t.GetImporter(&buf)
+			var held []jsonline.Row
+			var herr []error
+			for range written {
+				row, err := imp.ReadOne()
+				held = append(held, row)
+				herr = append(herr, err)
+			}
+			for k, i := range written {
+				bb := "err " + classifyLine(herr[k])
+				if herr[k] == nil && held[k] != nil {
+					got, _ := held[k].Get("c")
+					bb = "ok " + dynStr(got)
+				}
+				emitTypedWith(cw, f, ty, vals[i], bb)
 			}
 		}
 	}
